@@ -12,7 +12,22 @@ MUTABLE_CTORS = ("dict", "list", "set", "OrderedDict", "defaultdict", "collectio
 ENTRY = ["listener.parse", "__init__.load", "__init__.loads"]
 
 
+# constructors / factories whose result cannot be changed (or whose state is not program data): everything else that is called at
+# module or class level makes an object that must be assumed mutable (ChainMap, Counter, a user class, np.zeros, ...)
+from ..py.eff import IMMUTABLE_CALLS
+
+
 def is_mutable_display(v):
+    if isinstance(v, (ast.Dict, ast.List, ast.Set, ast.ListComp, ast.DictComp, ast.SetComp)):
+        return True
+    if isinstance(v, ast.Call):
+        f_ = u(v.func)
+        return f_ in MUTABLE_CTORS or f_ not in IMMUTABLE_CALLS
+    return False
+
+
+def plain_container(v):
+    """the object is one of the built-in containers, whose .clear() empties it completely"""
     return isinstance(v, (ast.Dict, ast.List, ast.Set, ast.ListComp, ast.DictComp, ast.SetComp)) or (isinstance(v, ast.Call) and u(v.func) in MUTABLE_CTORS)
 
 
@@ -42,6 +57,9 @@ def inventory(rep, E, ix):
             if gid in E.written_globals:
                 tables.add("%s.%s" % (m, name))
                 rep.info(R, "%s.%s" % (m, name), "module-level mutable object written after import: treated as a process-wide table (C12.2 must show it is cleared before use in every load)")
+                rep.check(plain_container(val), R, "%s.%s" % (m, name), "the process-wide table %s.%s is a built-in container, so that .clear() empties all of it" % (m, name),
+                          "it is created by `%s`: clearing it is not known to remove everything it holds (e.g. ChainMap.clear() empties only the first mapping)" % " ".join(u(val).split())[:60],
+                          key="%s.%s|container" % (m, name))
             else:
                 rep.ok(R, "%s.%s" % (m, name), "module-level mutable object %s.%s is never written after import (constant table)" % (m, name))
         # rebinding through `global`
